@@ -88,6 +88,8 @@ func (s *SoftwrapScanner) Scan() bool
   exit 3 assert prog3: len(s.rest) < old(len(s.rest))
   exit 4 assert prog4: len(s.rest) < old(len(s.rest))
   exit 5 assert prog5: len(s.rest) < old(len(s.rest))
+  -- a word is put on the line only if it fits there, also when a hard break follows it
+  exit 4 assert C16_fit4: w + wordLen <= s.width
   cut "trSpace := seg[len(word):]" segold: len(word) <= len(seg) && (forall k in 0..len(seg): seg[k] == oldat(s.rest, len(s.token) + k) && seg[k].Width >= 0)
   loop 1 decreases len(s.rest)
   loop 1 preserves old
